@@ -388,7 +388,13 @@ def run_rounds(n, rounds, seed, values=None, timeout=900):
     req = {"mode": "rounds", "n": n, "rounds": rounds, "seed": seed}
     if values:
         req["values"] = values
-    pr = common.vh(["conc"], input=json.dumps(req), timeout=timeout)
+    import subprocess
+    try:
+        # barrier-released rounds normally finish in seconds: a run that does not is a hang (a recording that never
+        # returns, e.g. a retry loop that cannot succeed any more), reported like a crash with the rounds as the replay
+        pr = common.vh(["conc"], input=json.dumps(req), timeout=min(timeout, 240))
+    except subprocess.TimeoutExpired:
+        return None, "fatal error: the barrier-released rounds did not finish within %d s (a recording call never returned)" % min(timeout, 240)
     if pr.returncode != 0 or not pr.stdout.strip():
         return None, pr.stderr
     return json.loads(pr.stdout.strip().splitlines()[-1]), pr.stderr
@@ -459,23 +465,32 @@ def run(tier):
             base["model_witness"] = w
             for attempt in range(3 if quick else 10):
                 vals = w["values"] if attempt % 2 == 0 else list(reversed(w["values"]))
-                res, _ = run_rounds(2, 20000 if quick else 200000, common.seed() + attempt, values=vals)
+                res, rerr = run_rounds(2, 20000 if quick else 200000, common.seed() + attempt, values=vals)
                 evals += 1
+                if res is None and "did not finish" in (rerr or ""):
+                    found = {"mode": "rounds", "n": 2, "values": vals, "rounds": 20000 if quick else 200000, "seed": common.seed() + attempt, "hang": rerr}
+                    break
                 if res and res["failed_rounds"]:
                     found = {"mode": "rounds", "n": 2, "values": vals, "rounds": res["rounds"], "seed": common.seed() + attempt,
                              "failed_rounds": res["failed_rounds"], "fail_count": res["fail_count"], "first": res["first"][:1]}
                     break
         if not found:
             for n in (2, 4, max(2, nc // 2)):
-                res, _ = run_rounds(n, 20000 if quick else 200000, common.seed())
+                res, rerr = run_rounds(n, 20000 if quick else 200000, common.seed())
                 evals += 1
+                if res is None and "did not finish" in (rerr or ""):
+                    found = {"mode": "rounds", "n": n, "rounds": 20000 if quick else 200000, "seed": common.seed(), "hang": rerr}
+                    break
                 if res and res["failed_rounds"]:
                     found = {"mode": "rounds", "n": n, "rounds": res["rounds"], "seed": common.seed(), "failed_rounds": res["failed_rounds"],
                              "fail_count": res["fail_count"], "first": res["first"][:1]}
                     break
         if found:
             base.update(found)
-            base["explanation"] = "%s — reproduced on the implementation: after %d of %d barrier-released rounds the totals reported by GetStats differ from the true values" % (d, found["failed_rounds"], found["rounds"])
+            if found.get("hang"):
+                base["explanation"] = "%s — reproduced on the implementation: barrier-released concurrent recordings never finish (a recording call does not return)" % d
+            else:
+                base["explanation"] = "%s — reproduced on the implementation: after %d of %d barrier-released rounds the totals reported by GetStats differ from the true values" % (d, found["failed_rounds"], found["rounds"])
         else:
             base["explanation"] = d + " — the instance lemma no longer holds for the regenerated program" + ("; the model loses an update on the schedule in model_witness" if w else "")
             if w:
